@@ -13,7 +13,7 @@ Record auth_steps := {
   as_stale : list N;     (* 1 !exists->false 2 re-read lock 3 pid!=expected->false 4 rename lock 5 read meta 6 meta.pid==expected 7 rename meta 8 rm lock tombstone 9 rm meta tombstone 10/11 remove_file(lock/meta path) *)
   as_corrupt : list N;   (* 1 !exists->false 2 meta exists? 3 read meta 4 Dead => proceed 5 else false 6 rename lock 7 rm tombstone 8 remove_file(lock path) *)
   as_server : list N;    (* 1 try_acquire 2 read meta 3 ping 4 if reachable 5 read lock 6 liveness 7 if Dead && !reachable 8 stale cleanup 9 invalid-since 10 if invalid > 1 s 11 corrupt cleanup *)
-  as_client : list N     (* 1 read meta 2 ping 3 liveness(meta) 4 if Dead 5 stale cleanup 6 if lock exists 7 read lock 8 liveness(lock) 9 invalid-since 10 if invalid > 1 s 11 corrupt cleanup 12 spawn 13 try_acquire *)
+  as_client : list N     (* 1 read meta 2 ping 3 liveness(meta) 4 if Dead 5 stale cleanup 6 if lock exists 7 read lock 8 liveness(lock) 9 invalid-since 10 if invalid > 1 s 11 corrupt cleanup 12 spawn 13 try_acquire 14 (meta branch) if lock.json exists *)
 }.
 
 Definition exp_acquire : list N := [1; 4; 5].
@@ -22,7 +22,7 @@ Definition exp_meta : list N := [1; 2; 3].
 Definition exp_stale : list N := [1; 2; 3; 4; 5; 6; 7; 9; 8].
 Definition exp_corrupt : list N := [1; 2; 3; 4; 5; 6; 7].
 Definition exp_server : list N := [1; 2; 3; 4; 5; 6; 7; 8; 9; 10; 11].
-Definition exp_client : list N := [1; 2; 3; 4; 5; 6; 7; 8; 4; 5; 9; 10; 11; 12].
+Definition exp_client : list N := [1; 2; 3; 4; 14; 5; 12; 6; 7; 8; 4; 5; 9; 10; 11; 12].
 
 (* marker -> pc_code of the model step that performs it *)
 Definition pc_of_acquire (c : N) : N := match c with 1 => 1 | 4 => 1 | 5 => 2 | _ => 99 end.
@@ -34,8 +34,11 @@ Definition pc_of_corrupt (c : N) : N :=
   match c with 1 => 18 | 2 => 19 | 3 => 22 | 4 => 23 | 5 => 23 | 6 => 20 | 7 => 20 | _ => 99 end.
 Definition pc_of_server (c : N) : N :=
   match c with 1 => 1 | 2 => 8 | 3 => 12 | 4 => 12 | 5 => 9 | 6 => 11 | 7 => 11 | 8 => 13 | 9 => 9 | 10 => 9 | 11 => 18 | _ => 99 end.
-Definition pc_of_client (c : N) : N :=
-  match c with 1 => 8 | 2 => 12 | 3 => 11 | 4 => 11 | 5 => 13 | 6 => 10 | 7 => 9 | 8 => 11 | 9 => 9 | 10 => 9 | 11 => 18 | 12 => 10 | _ => 99 end.
+(* the client loop uses some markers twice (meta.json branch / lock.json branch), so its pcs are given by POSITION in
+   exp_client: read meta, ping, liveness(meta pid) + if Dead (LiveM), if lock exists (LockExistsM), stale cleanup, spawn
+   (LockExistsM = false) | if lock exists (LockExists), read lock, liveness + if Dead (Live), stale cleanup, invalid-since
+   + if > 1 s (decided at RdLock), corrupt cleanup, spawn (LockExists = false) *)
+Definition client_pcs : list N := [8; 12; 24; 24; 25; 13; 25; 10; 9; 11; 11; 13; 9; 9; 18; 10].
 
 Fixpoint dedup (l : list N) : list N :=
   match l with
@@ -74,8 +77,11 @@ Definition auth_steps_wf (g : auth_steps) : bool :=
   && (let e := dedup (map pc_of_server (as_server g)) in
       lN_eqb (firstn 6 e) (loop_trace 6 0 (LRec 900) (MRec 900) DServer)
       && lN_eqb ([1; 8; 12] ++ skipn 6 e) (loop_trace 5 2 (LHalf 900) (MRec 901) DServer))
-  && (let e := dedup (map pc_of_client (as_client g)) in
-      lN_eqb (firstn 4 e) (loop_trace 4 0 (LRec 900) (MRec 900) DClient)
-      && lN_eqb (8 :: firstn 4 (skipn 4 e)) (loop_trace 5 0 (LRec 900) MAbsent DClient)
-      && lN_eqb ([8; 10] ++ firstn 2 (skipn 8 e)) (loop_trace 4 2 (LHalf 900) MAbsent DClient)
-      && lN_eqb (skipn 10 e) [10]).
+  && (let e := dedup client_pcs in
+      Nat.eqb (length (as_client g)) (length client_pcs)
+      && lN_eqb (firstn 5 e) (loop_trace 5 0 (LRec 900) (MRec 900) DClient)
+      && lN_eqb (firstn 4 e ++ [8]) (loop_trace 5 0 LAbsent (MRec 900) DClient)
+      && lN_eqb (nth 5 e 0 :: nil) [25]
+      && lN_eqb (8 :: firstn 4 (skipn 6 e)) (loop_trace 5 0 (LRec 900) MAbsent DClient)
+      && lN_eqb ([8; 10] ++ firstn 2 (skipn 10 e)) (loop_trace 4 2 (LHalf 900) MAbsent DClient)
+      && lN_eqb (skipn 12 e) [10]).
